@@ -377,7 +377,17 @@ func main() {
 		fmt.Fprintln(os.Stderr, err)
 		os.Exit(1)
 	}
-	fmt.Fprintf(&b, "/-- Identity.applyIdentityJSON as a sequence of events -/\ndef identApplySeq : List String := %s\n\n", q(seq))
+	evName := map[string]string{"decode-id": ".decodeId", "ret-err": ".retErr", "set-id": ".setId", "b64": ".b64", "unmarshal-key": ".unmarshalKey",
+		"set-key": ".setKey", "ret-validate": ".retValidate", "ret-nil": ".retNil"}
+	var evs []string
+	for _, e := range seq {
+		if n, ok := evName[e]; ok {
+			evs = append(evs, n)
+		} else {
+			evs = append(evs, ".unknown")
+		}
+	}
+	fmt.Fprintf(&b, "/-- Identity.applyIdentityJSON as a sequence of events -/\ndef identApplySeq : List Ident.Ev := [%s]\n\n", strings.Join(evs, ", "))
 	order, reach, err := common.C15ManagerEnvOrder(repo)
 	if err != nil {
 		fmt.Fprintln(os.Stderr, err)
